@@ -41,7 +41,7 @@ ASSUMPTIONS = [
     "pre-emption points are public-API steps; threads sharing one parser are not simulated (no such promise)",
     "'result' = text, XML bytes and the canonical LTPage tree incl. names, matrices, colours, points (LTPage.pageid, a per-call counter, is excluded when pages are extracted individually)",
 ]
-PROBES = ["interleaved iterators of different documents", "iterator abandoned half-consumed", "call repeated later in history", "gc.collect step", "caching off", "eviction happened", "address policy rev", "address policy rand", "hash-seed re-execution", "cmap cache digest compared", "page replaces font under same resource name", "pages share font object", "page uses undefined font name", "direct font dictionary", "encrypted", "cjk-euc-h", "unknown-base-diffs-A", "no-encoding", "type0-shared-descendant-A", "type0-shared-descendant-B", "shared-diffs-A", "shared-diffs-B", "helvetica-custom-encoding", "repository sample"]
+PROBES = ["interleaved iterators of different documents", "iterator abandoned half-consumed", "call repeated later in history", "gc.collect step", "caching off", "eviction happened", "address policy rev", "address policy rand", "hash-seed re-execution", "cmap cache digest compared", "page replaces font under same resource name", "pages share font object", "page uses undefined font name", "direct font dictionary", "unpainted path at page end", "encrypted", "cjk-euc-h", "unknown-base-diffs-A", "no-encoding", "type0-shared-descendant-A", "type0-shared-descendant-B", "shared-diffs-A", "shared-diffs-B", "helvetica-custom-encoding", "repository sample"]
 TIERS = {
     "quick": {"batches": 16, "runs": 14, "budget_s": 50},
     "thorough": {"batches": 128, "runs": 120, "budget_s": 1200},
